@@ -155,6 +155,68 @@ theorem chunks_entries (c : Cons) (cs : List (List Nat)) (hpos : ∀ d ∈ c.chu
       next => cases h
   next => cases h
 
+theorem listSummands_le (A b r : Nat) (hb : 0 < b) : ∀ x ∈ listSummands A b r, x ≤ b := by
+  intro x hx
+  rcases listSummands_entries A b r hb with h | h
+  · rw [h] at hx; simp at hx; omega
+  · exact (h x hx).2
+
+theorem zipWith_summands_le (xs cs : List Nat) (hpos : ∀ c ∈ cs, 0 < c) (k : Nat) (ch : List Nat) (b : Nat)
+    (hch : (List.zipWith (fun ddim cdim => listSummands ddim cdim) xs cs)[k]? = some ch) (hb : cs[k]? = some b) :
+    ∀ x ∈ ch, x ≤ b := by
+  induction xs generalizing cs k with
+  | nil => simp at hch
+  | cons x xs ih =>
+    cases cs with
+    | nil => simp at hch
+    | cons c cs =>
+      cases k with
+      | zero =>
+        simp at hch hb
+        subst hch hb
+        exact listSummands_le x c 1 (hpos c (by simp))
+      | succ k =>
+        simp at hch hb
+        exact ih cs (fun d hd => hpos d (by simp [hd])) k hch hb
+
+/-- along the dimensions that chunk_shape specifies, no advertised chunk is larger than chunk_shape says -/
+theorem chunks_bounded (c : Cons) (cs : List (List Nat)) (hpos : ∀ d ∈ c.chunkShape, 0 < d)
+    (h : chunks c = .ok cs) (k : Nat) (ch : List Nat) (b : Nat) (hch : cs[k]? = some ch) (hb : c.chunkShape[k]? = some b) :
+    ∀ x ∈ ch, x ≤ b := by
+  have hk : k < c.chunkShape.length := by
+    rcases Nat.lt_or_ge k c.chunkShape.length with h | h
+    · exact h
+    · rw [List.getElem?_eq_none h] at hb; cases hb
+  unfold chunks at h
+  simp only at h
+  split at h
+  next hlen =>
+    split at h
+    next =>
+      injection h with h; subst h
+      have hl : (List.zipWith (fun ddim cdim => listSummands ddim cdim) ((shape c).take c.chunkShape.length) c.chunkShape).length = c.chunkShape.length := by
+        simp [List.length_take]; omega
+      rw [List.getElem?_append_left (by rw [hl]; exact hk)] at hch
+      exact zipWith_summands_le _ _ hpos k ch b hch hb
+    next hbr =>
+      split at h
+      next d0 dt c0 ct hds hcs =>
+        injection h with h; subst h
+        rw [hcs] at hb hk hlen
+        cases k with
+        | zero =>
+          simp at hch hb
+          subst hch hb
+          exact listSummands_le d0 _ _ (hpos _ (by simp [hcs]))
+        | succ k =>
+          simp only [List.cons_append, List.getElem?_cons_succ] at hch hb
+          have hl : (List.zipWith (fun ddim cdim => listSummands ddim cdim) (((shape c).take (c0 :: ct).length).drop 1) ct).length = ct.length := by
+            simp [List.length_take] at hlen ⊢; omega
+          rw [hcs] at hch
+          rw [List.getElem?_append_left (by rw [hl]; simpa using hk)] at hch
+          exact zipWith_summands_le _ _ (fun d hd => hpos d (by simp [hcs, hd])) k ch b hch hb
+      next => cases h
+  next => cases h
 /-! constructor / consume invariants -/
 
 theorem construct_chunkShape_pos (a : CtorArgs) (c : Cons) (h : construct a = .ok c) : ∀ d ∈ c.chunkShape, 0 < d := by
